@@ -144,6 +144,9 @@ type State struct {
 	dead bool
 	havocEpoch int
 	released []*Term
+	underHavoc []*Term
+	qfacts []qfact
+	qdone  map[string]bool
 }
 
 func (s *State) clone() *State {
@@ -156,6 +159,11 @@ func (s *State) clone() *State {
 	}
 	c.pc = append([]*Term(nil), s.pc...)
 	c.havocEpoch = s.havocEpoch
+	c.qfacts = append([]qfact(nil), s.qfacts...)
+	c.qdone = make(map[string]bool, len(s.qdone))
+	for k, v := range s.qdone {
+		c.qdone[k] = v
+	}
 	c.released = append([]*Term(nil), s.released...)
 	for _, f := range s.frames {
 		c.frames = append(c.frames, f.clone())
